@@ -15,7 +15,8 @@
 //
 // BOUNDS (shape alphabets in c07_driver.hpp).  quick: all ordered shape pairs of S(1..3,3) (1521, compatible and incompatible; with the
 // scalar operand kind this is DESIGN.md's S(0..3,3)); triples (where) S(1..3,2)^3 + S(1..2,3)^3; unary / scalar-side shapes S(1..3,3) + S(4,2);
-// outer S(1..2,3)^2.  thorough: pairs S(1..4,3)^2 (14400); triples S(1..3,3)^3; unary S(1..4,3); outer S(1..3,3)^2.
+// outer S(1..2,3)^2; extent-4 boundary: the pairs of S(1..2,4) containing an extent 4.  thorough: pairs S(1..4,3)^2 (14400) + the extent-4
+// boundary + 9 larger pairs (<= 120 elements, the quantifier's "sampled larger" as a fixed list); triples S(1..3,3)^3; unary S(1..4,3); outer S(1..3,3)^2.
 // Element types and operand kinds per family: see the type lists below.
 //
 // NOT INSTANTIABLE on the pinned tree (compile-time rejection, therefore not checked): view::clip / array::clip with ANY array
@@ -184,6 +185,7 @@ constexpr unsigned KB_MENU = KB_AA | KB_AV | KB_VA | KB_AS | KB_SA | KB_VS | KB_
 constexpr bool in_menu(int a, int b, const char* menu) { for (const char* m = menu; m[0] && m[1]; m += 2) if (m[0] - '0' == a && m[1] - '0' == b) return true; return false; }
 #define KSTD(MENU) (in_menu(tid<TA>(), tid<TB>(), MENU) ? KB_MENU : KB_AA)
 #define M_STD "2207"     /* (i32,i32) (i8,f64) */
+#define M_MM  "220770"   /* (i32,i32) (i8,f64) (f64,i8): maximum / minimum select an operand, so a scalar of either type on either side matters */
 #define M_INT "22"       /* (i32,i32) */
 #define M_FLT "77"       /* (f64,f64) */
 #define M_LDEXP "72"     /* (f64,i32) */
@@ -219,8 +221,9 @@ C07_BINARY(equal, view::equal_t{}, D_FULL, D_FULL, P64, M_STD)
 C07_BINARY(not_equal, view::not_equal_t{}, D_FULL, D_FULL, P16, M_STD)
 using group_fns = fl<equal_d, not_equal_d>;
 #elif C07_GROUP == 5
-C07_BINARY(maximum, view::maximum_t<>{}, D_FULL, D_FULL, P16, M_STD)
-C07_BINARY(minimum, view::minimum_t<>{}, D_FULL, D_FULL, P16, M_STD)
+using P17 = cat_t<P16, tl<tt<f64, i8>>>;
+C07_BINARY(maximum, view::maximum_t<>{}, D_FULL, D_FULL, P17, M_MM)
+C07_BINARY(minimum, view::minimum_t<>{}, D_FULL, D_FULL, P17, M_MM)
 C07_BINARY(less_equal, view::less_equal_t{}, D_FULL, D_FULL, P16, M_STD)
 C07_BINARY(greater_equal, view::greater_equal_t{}, D_FULL, D_FULL, P16, M_STD)
 using group_fns = fl<maximum_d, minimum_d, less_equal_d, greater_equal_d>;
@@ -249,11 +252,11 @@ C07_BINARY(logical_and, view::logical_and_t{}, D_LOGIC, D_LOGIC, PLOG, M_STD)
 C07_BINARY(logical_or, view::logical_or_t{}, D_LOGIC, D_LOGIC, PLOG, M_STD)
 C07_BINARY(logical_xor, view::logical_xor_t{}, D_LOGIC, D_LOGIC, PLOG, M_STD)
 C07_UNARY(logical_not, view::logical_not_t{}, D_LOGIC, U8L)
-// where: type triples (condition, x, y); all of them with three ndarrays, the kind menu on the (bool,int32,int32) triple
+// where: type triples (condition, x, y); all of them with three ndarrays, the kind menu on the (bool,int32,int32) and (uint8,int8,double) triples
 struct where_d { static constexpr const char* name = "where"; static constexpr int arity = 3;
     using types = tl<tt<u8, i8, i8>, tt<u8, i16, i16>, tt<i32, i32, i32>, tt<u8, i64, i64>, tt<i8, u8, u8>, tt<u8, u32, u32>, tt<u8, f32, f32>, tt<f64, f64, f64>,
                      tt<bool, i32, i32>, tt<bool, f32, f32>, tt<f64, i32, i32>, tt<i64, i8, i8>, tt<u8, i8, f64>, tt<u8, f32, i64>, tt<i32, u32, i16>, tt<u8, i32, i64>>;
-    template <typename TC, typename TX, typename TY> static constexpr bool menu() { return std::is_same_v<TC, bool> && std::is_same_v<TX, i32>; }
+    template <typename TC, typename TX, typename TY> static constexpr bool menu() { return (std::is_same_v<TC, bool> && std::is_same_v<TX, i32>) || (std::is_same_v<TX, i8> && std::is_same_v<TY, f64>); }
     template <typename A, typename B, typename C> static auto lazy(const A& a, const B& b, const C& c) { return view::where(a, b, c); }
     template <typename A, typename B, typename C> static auto eager(const A& a, const B& b, const C& c) { return na::where(a, b, c); } };
 using group_fns = fl<logical_and_d, logical_or_d, logical_xor_d, logical_not_d, where_d>;
